@@ -297,6 +297,11 @@ def suites(tier, seed):
 def _own_suites(tier, seed):
     import apigen
     return [
+        Suite("drop-connection-e2e", "dropconn", lambda: [Case("d%d" % i, ["run %s" % m], {"keep_prefix": 0}) for i, m in enumerate(["plain", "panic", "panic", "plain"])],
+              monitor=lambda c, il, sl: None if [l for l in il if l and not l.startswith("#")] == ["dropped ok close-frame-sent t transport-released t"] else (
+                  "a Connection went out of scope (%s); when the drop had returned: %s - expected: Connection.Close sent, the I/O thread gone, the transport released" % (c.ops[0].split()[1], [l for l in il if not l.startswith("#")]), "c05-drop"),
+              nontrivial=lambda c, il: True, compare=False, shrink=False, timeout=60,
+              rule="real connection + I/O thread over the mock transport; the Connection is dropped plainly and by a panic unwinding through its owner: when the drop has returned, Connection.Close is on the wire, the I/O thread has exited and the transport has been released"),
         Suite("exception-texts", "machine", lambda: __import__("props.c07", fromlist=["x"]).gen_exc_text(tier, seed), monitor=__import__("props.c07", fromlist=["x"]).monitor, nontrivial=lambda c, il: True, canon=mg.canon_nondet, candidate_ok=mg.candidate_ok,
               rule="client exceptions with long non-ASCII texts: the I/O thread does not panic, the loop ends in ClientException (the root cause Connection::close reports)"),
         Suite("silence-in-loop", "machine", lambda: __import__("hbgen").blocked_then_silent_cases(Rng(seed + 55)) + [__import__("hbgen").session(Rng(seed * 7 + i), "s%d" % i, force_close=[None, "client", "server"][i % 3], h_choices=(400, 300), steps=(4, 7)) for i in range(9 if tier == "quick" else 90)],
